@@ -92,7 +92,7 @@ ResetVars ==
   /\ oldInprog' = [i \in Workers |-> {}] /\ oldCounter' = [i \in Workers |-> 1]
   /\ cmdq' = <<>>
   /\ nconn' = 0 /\ nfaults' = 0 /\ ncmds' = 0 /\ nerrs' = 0 /\ nbare' = 0
-  /\ served' = [c \in {} |-> 0] /\ closed' = {} /\ dispatchLog' = <<>> /\ rrWindow' = <<>>
+  /\ served' = [c \in {} |-> 0] /\ closed' = {} /\ dispatchLog' = <<>> /\ lastD' = <<>> /\ rer' = FALSE /\ rrWindow' = <<>>
   /\ everFaulted' = FALSE /\ pauseEffective' = FALSE /\ connRefused' = FALSE
   /\ fatalSeen' = [l \in Listeners |-> FALSE]
   /\ act' = A("Init")
@@ -106,7 +106,7 @@ WakeAvailT(i) ==
   /\ UNCH_ACCEPT
   /\ UNCHANGED <<backlog, registered, edge, pathOk, errq, lstTimer, timeoutSet, chan, chanOpen, counter,
                  inprog, alive, oldInprog, oldCounter, cmdq, nconn, nfaults, ncmds, nerrs, nbare, served, closed,
-                 dispatchLog, rrWindow, everFaulted, pauseEffective, connRefused, fatalSeen>>
+                 dispatchLog, lastD, rer, rrWindow, everFaulted, pauseEffective, connRefused, fatalSeen>>
 \* a command is queued whether or not the accept thread still runs
 CmdT(x) ==
   /\ ncmds' = ncmds + 1
@@ -115,7 +115,7 @@ CmdT(x) ==
   /\ UNCH_ACCEPT
   /\ UNCHANGED <<backlog, registered, edge, pathOk, errq, lstTimer, timeoutSet, chan, chanOpen, counter,
                  inprog, alive, oldInprog, oldCounter, cmdq, nconn, nfaults, nerrs, nbare, served, closed,
-                 dispatchLog, rrWindow, everFaulted, pauseEffective, connRefused, fatalSeen>>
+                 dispatchLog, lastD, rer, rrWindow, everFaulted, pauseEffective, connRefused, fatalSeen>>
 \* the driver replaces the worker it names (the specification's server answers the oldest report first)
 RemoveFirst(s, i) == LET k == CHOOSE k \in 1..Len(s) : s[k] = i /\ \A j \in 1..(k - 1) : s[j] # i
                      IN [j \in 1..(Len(s) - 1) |-> IF j < k THEN s[j] ELSE s[j + 1]]
@@ -128,7 +128,7 @@ ReplaceT(i) ==
   /\ act' = [A("Replace") EXCEPT !.i = i]
   /\ UNCH_ACCEPT
   /\ UNCHANGED <<backlog, registered, edge, pathOk, errq, lstTimer, timeoutSet, chan, inprog, oldInprog,
-                 oldCounter, nconn, nfaults, ncmds, nerrs, nbare, served, closed, dispatchLog, rrWindow,
+                 oldCounter, nconn, nfaults, ncmds, nerrs, nbare, served, closed, dispatchLog, lastD, rer, rrWindow,
                  everFaulted, pauseEffective, connRefused, fatalSeen>>
 \* virtual time advances: any set of pending back-off deadlines passes (the measured state decides which)
 AdvanceT ==
@@ -138,7 +138,7 @@ AdvanceT ==
   /\ UNCH_ACCEPT
   /\ UNCHANGED <<backlog, registered, edge, pathOk, errq, timeoutSet, wq, wakerPending, chan, chanOpen,
                  counter, inprog, alive, oldInprog, oldCounter, cmdq, nconn, nfaults, ncmds, nerrs, nbare,
-                 served, closed, dispatchLog, rrWindow, everFaulted, pauseEffective, connRefused, fatalSeen>>
+                 served, closed, dispatchLog, lastD, rer, rrWindow, everFaulted, pauseEffective, connRefused, fatalSeen>>
 \* the driver's bare wake of the poller (stands in for the poll time-out)
 BareWakeT ==
   /\ wakerPending' = TRUE /\ nbare' = nbare + 1
@@ -146,7 +146,7 @@ BareWakeT ==
   /\ UNCH_ACCEPT
   /\ UNCHANGED <<backlog, registered, edge, pathOk, errq, lstTimer, timeoutSet, wq, chan, chanOpen, counter,
                  inprog, alive, oldInprog, oldCounter, cmdq, nconn, nfaults, ncmds, nerrs, served, closed,
-                 dispatchLog, rrWindow, everFaulted, pauseEffective, connRefused, fatalSeen>>
+                 dispatchLog, lastD, rer, rrWindow, everFaulted, pauseEffective, connRefused, fatalSeen>>
 \* polling a worker that has nothing queued (or is gone) changes nothing this specification talks about; connections
 \* that the schedule finished before they were served (prefin) are called and complete at once: WorkerPoll followed by
 \* their Finish steps, folded into one step (the counter goes down by their number, crossing WakeAt at most once)
@@ -165,7 +165,7 @@ WorkerPollT(i) ==
             /\ act' = [A("WorkerPoll") EXCEPT !.i = i]
             /\ UNCH_ACCEPT
             /\ UNCHANGED <<backlog, registered, edge, pathOk, errq, lstTimer, timeoutSet, chanOpen, alive, oldInprog,
-                           oldCounter, cmdq, nconn, nfaults, ncmds, nerrs, nbare, dispatchLog, rrWindow, everFaulted,
+                           oldCounter, cmdq, nconn, nfaults, ncmds, nerrs, nbare, dispatchLog, lastD, rer, rrWindow, everFaulted,
                            pauseEffective, connRefused, fatalSeen>>
 \* a Finish for a connection that is not in progress: remembered (it has not been served yet) - or a repetition
 FinishT(c) ==
